@@ -19,16 +19,55 @@ import (
 	"sort"
 	"strings"
 
+	"go/types"
+
 	"golang.org/x/tools/go/ssa"
 )
 
 var sweepKinds = regexp.MustCompile(`\.safety\.(index|slice-bounds|slice-to-array|nil-map-write|slice-too-short-for-uint64|div-zero|make-len)`)
+
+// thinContractHeader: the contract key of a declared function ("(*T).M", "(T).M", "F") and the requires clause that
+// states what the sweep assumed (reference-typed parameters non-nil). nameable is false when a reference-typed
+// parameter has no usable name.
+func thinContractHeader(fn *ssa.Function) (key, req string, nameable bool) {
+	key = fn.Name()
+	if recv := fn.Signature.Recv(); recv != nil {
+		t := recv.Type()
+		star := ""
+		if pt, ok := t.(*types.Pointer); ok {
+			t, star = pt.Elem(), "*"
+		}
+		name := ""
+		switch tt := t.(type) {
+		case *types.Named:
+			name = tt.Obj().Name()
+		case *types.Alias:
+			name = tt.Obj().Name()
+		}
+		if name == "" {
+			return "", "", false
+		}
+		key = "(" + star + name + ")." + fn.Name()
+	}
+	var conj []string
+	for _, p := range fn.Params {
+		switch p.Type().Underlying().(type) {
+		case *types.Pointer, *types.Interface, *types.Map, *types.Chan, *types.Signature:
+			if p.Name() == "" || p.Name() == "_" {
+				return key, "", false
+			}
+			conj = append(conj, p.Name()+" != nil")
+		}
+	}
+	return key, strings.Join(conj, " && "), true
+}
 
 func cmdSweep(args []string) int {
 	fs := flag.NewFlagSet("sweep", flag.ExitOnError)
 	repo := fs.String("repo", envOr("VERIF_REPO", "/repo"), "repository root")
 	verif := fs.String("verif", envOr("VERIF_DIR", "/verif"), "verif root")
 	only := fs.String("only", "", "regexp: only functions matching")
+	emit := fs.String("emit", "", "property ids: print a thin safety contract (safety + non-nil reference parameters) for every function without a contract whose obligations are ALL discharged, to be appended to the package's contract file")
 	fs.Parse(args)
 	pkgs := fs.Args()
 	if len(pkgs) == 0 {
@@ -45,6 +84,8 @@ func cmdSweep(args []string) int {
 		return 2
 	}
 	var obs []*Obligation
+	var emitFns []*ssa.Function
+	emitObs := map[*ssa.Function][]*Obligation{}
 	nfun := 0
 	for _, rel := range pkgs {
 		sp := eng.ssaPkgs["github.com/bloxapp/ssv/"+rel]
@@ -88,6 +129,19 @@ func cmdSweep(args []string) int {
 				return
 			}
 			nfun++
+			if *emit != "" {
+				if _, has := eng.contracts[fn.String()]; has || fn.Parent() != nil {
+					return
+				}
+				emitFns = append(emitFns, fn)
+				for _, ob := range enc.obls {
+					if ob.Kind != "cover" {
+						obs = append(obs, ob)
+						emitObs[fn] = append(emitObs[fn], ob)
+					}
+				}
+				return
+			}
 			for _, ob := range enc.obls {
 				if ob.Kind == "safety" && sweepKinds.MatchString(ob.Name) {
 					obs = append(obs, ob)
@@ -98,6 +152,28 @@ func cmdSweep(args []string) int {
 	dir, _ := os.MkdirTemp("", "gowp-sweep-")
 	defer os.RemoveAll(dir)
 	solveAll(dir, obs, 5, 12, false)
+	if *emit != "" {
+		nEmit := 0
+		for _, fn := range emitFns {
+			obl := emitObs[fn]
+			ok := len(obl) > 0
+			for _, ob := range obl {
+				ok = ok && ob.Status == "unsat"
+			}
+			key, req, nameable := thinContractHeader(fn)
+			if !ok || !nameable {
+				fmt.Printf("// skipped %s: %d obligations, all discharged: %v, parameters nameable: %v\n", fn, len(obl), ok, nameable)
+				continue
+			}
+			nEmit++
+			fmt.Printf("\n//@ func %s\n//@ props %s\n//@ safety\n//@ modifies everything\n", key, *emit)
+			if req != "" {
+				fmt.Printf("//@ requires %s\n", req)
+			}
+		}
+		fmt.Printf("\n// sweep --emit: %d functions encoded, %d thin safety contracts emitted\n", nfun, nEmit)
+		return 0
+	}
 	var confirmed, candidates []string
 	nsat := 0
 	for _, ob := range obs {
